@@ -63,6 +63,14 @@ def config(ctx) -> None:
     self.max_volume / self.auto_split are stored once, in a worklist constructor, as the unmodified parameter."""
     rule = "C06.config"
     base = ctx.prog.require_class("BaseWorklist", rule)
+    ctor_stores(ctx, rule, ("max_volume", "auto_split"), 2)
+    binit = ctx.prog.find_method(base, "__init__")
+    _forwarding(ctx, rule, base, binit, ("max_volume", "auto_split"))
+
+
+def ctor_stores(ctx, rule: str, attrs, floor: int) -> None:
+    """The named settings of a worklist are stored once, in a worklist constructor, as the unmodified parameter."""
+    base = ctx.prog.require_class("BaseWorklist", rule)
     n_stores = 0
     for f in ctx.prog.all_functions():
         for st in own_walk(f.node):
@@ -70,7 +78,7 @@ def config(ctx) -> None:
                 continue
             tgts = st.targets if isinstance(st, ast.Assign) else [st.target]
             for t in tgts:
-                if not (isinstance(t, ast.Attribute) and t.attr in ("max_volume", "auto_split")):
+                if not (isinstance(t, ast.Attribute) and t.attr in attrs):
                     continue
                 fv = ctx.fv(f)
                 recv = fv.env.get(t.value.id) if isinstance(t.value, ast.Name) else None
@@ -92,10 +100,15 @@ def config(ctx) -> None:
                 elif any(isinstance(x, ast.Call) and call_fname(x) in ("int", "round", "floor", "ceil", "trunc", "min", "max", "abs", "around", "rint") for x in ast.walk(val)) or isinstance(val, ast.Constant):
                     ctx.rep.refuted(rule, c, f"the constructor stores `{show(val)[:60]}` instead of the {t.attr} the user configured: splitting and limit checks use a different limit "
                                     "(more steps than necessary, or a zero limit)", where=w)
+                elif isinstance(val, (ast.Compare, ast.BoolOp)) or (isinstance(val, ast.UnaryOp) and isinstance(val.op, ast.Not)):
+                    ctx.rep.refuted(rule, c, f"the constructor stores the outcome of the test `{show(val)[:60]}` instead of the {t.attr} the user configured: values that mean the same "
+                                    "(1, numpy.bool_, numpy numbers) are read as something else", where=w)
                 else:
                     ctx.rep.inconclusive(rule, c, f"cannot relate the stored `{show(val)[:60]}` to the {t.attr} parameter", where=w)
-    ctx.rep.floor(rule, "stores of max_volume / auto_split on worklists", n_stores, 2)
-    binit = ctx.prog.find_method(base, "__init__")
+    ctx.rep.floor(rule, f"stores of {' / '.join(attrs)} on worklists", n_stores, floor)
+
+
+def _forwarding(ctx, rule: str, base, binit, attrs) -> None:
     for dev in concrete_devices(ctx):
         f = ctx.prog.find_method(dev, "__init__")
         if f is None or f is binit:
@@ -110,11 +123,11 @@ def config(ctx) -> None:
         fa = f.node.args
         forwards_all = fa.vararg is not None and fa.kwarg is not None and any(isinstance(a, ast.Starred) and is_name(a.value, fa.vararg.arg) for a in call.args) \
             and any(k.arg is None and is_name(k.value, fa.kwarg.arg) for k in call.keywords)
-        if forwards_all and not ({"max_volume", "auto_split"} & set(f.params)):
+        if forwards_all and not (set(attrs) & set(f.params)):
             ctx.rep.holds(rule, c, "forwards *args/**kwargs unchanged", where=f.where(call))
             continue
         b = fv.bind_args(sup[0]) or {}
-        for attr in ("max_volume", "auto_split"):
+        for attr in attrs:
             v = fv.res.resolve(b[attr], sup[0].node) if attr in b else None
             ok = v is not None and is_name(v, attr) and attr in f.params
             ctx.rep.check(ok, rule, f"{c}/{attr}", f"passes its {attr} parameter on unchanged",
